@@ -11,6 +11,13 @@ OptionStore.get_value_for on the coredata.dat loaded back in the child.  Monitor
 (vf/monitors/c07_options.py): stored-value invariant at initialize_from_* / coredata.save,
 set_option / set_user_option trace.  Invalid values of every kind at every source must be rejected
 with a MesonException (exit 1, no traceback, build dir not left configured).
+
+The command-line source has a shape of its own (cmd_option_groups / vary_command_line / gen_cli_buildtype):
+every builtin can be written -Dname=value, --name=value or --name value, independently per option; the
+arguments can stand in any order; and three commands accept them (meson setup, meson configure, meson setup
+--reconfigure).  None of this is a source in the documented orders, so every shape must give the value the
+plain `-D..., buildtype first` spelling gives; the group BTO enumerates the one documented interaction between
+arguments (buildtype vs explicit debug/optimization) over order x spelling x command.
 """
 from __future__ import annotations
 
@@ -312,33 +319,80 @@ def build_tree(sc: dict, root: str) -> T.Tuple[str, str, T.List[str]]:
     elif mtxt or sc.get('always_native'):
         files['native.ini'] = mtxt
         argv += ['--native-file', os.path.join(src, 'native.ini')]
-    cmd_entries = list(srcs.get(S4, []))
-    if sc.get('cmd_bt_last'):
-        # the command line is documented order-independent for buildtype vs debug/optimization
-        cmd_entries = [e for e in cmd_entries if e[0] != 'buildtype'] + [e for e in cmd_entries if e[0] == 'buildtype']
-    cmd_form = sc.get('cmd_form', 'D')
-    for n, v in cmd_entries:
-        bare = n[6:] if n.startswith('build.') else n
-        if cmd_form != 'D' and bare in R.BUILTINS and not (isinstance(v, bool) and not v):
-            # Builtin-options.md: "Some options can also be set by --option=value, or --option value";
-            # "--warnlevel is the cli argument for the warning_level option"
-            arg = '--warnlevel' if n == 'warning_level' else '--' + n.replace('_', '-')
-            if isinstance(v, bool):
-                argv.append(arg)
-            elif cmd_form == 'long-eq':
-                argv.append(f'{arg}={emit_cmd(v, bare)}')
-            else:
-                argv += [arg, emit_cmd(v, bare)]
-        else:
-            argv.append(f'-D{n}={emit_cmd(v, bare)}')
-    for n, v in srcs.get(S8, []):
-        argv.append(f'-Dsub:{n}={emit_cmd(v, n)}')
+    if sc.get('entry', 'setup') == 'setup':
+        # (other entry points: the option arguments are given to a later command, see run_scenario)
+        argv += cmd_option_args(sc)
     for fn, text in sc.get('extra_files', {}).items():
         files[fn] = text
     argv += [a.replace('@SRC@', src) for a in sc.get('extra_argv', [])]
     argv += [bdir, src]
     runner.write_tree(src, files)
     return src, bdir, argv
+
+
+CMD_FORMS = ('D', 'long-eq', 'long-space')
+
+
+def cmd_option_groups(sc: dict) -> T.List[T.Tuple[str, str, T.List[str]]]:
+    """The command-line source(s) of a scenario as (option name, spelling used, argv tokens) per option, in
+    the order the arguments are written.
+      spelling  sc['cmd_forms'][name], else sc['cmd_form'], else 'D':  -Dname=value | --name=value | --name value
+                (Builtin-options.md: "Some options can also be set by --option=value, or --option value";
+                "--warnlevel is the cli argument for the warning_level option"; a boolean's dedicated
+                spelling is the bare flag and can only say true, so false is always written with -D)
+      order     sc['cmd_order']: absent = as generated (global entries, then sub: entries);
+                'reverse'; {'shuffle': n} seeded permutation; {'perm': [names...]} the named options in
+                that order first.  The documents order SOURCES, never positions on one command line, and
+                no scenario names an option twice on it, so every order states the same configuration."""
+    srcs = sc['src']
+    forms = sc.get('cmd_forms') or {}
+    groups: T.List[T.Tuple[str, str, T.List[str]]] = []
+    cmd_entries = list(srcs.get(S4, []))
+    if sc.get('cmd_bt_last'):
+        cmd_entries = [e for e in cmd_entries if e[0] != 'buildtype'] + [e for e in cmd_entries if e[0] == 'buildtype']
+    for n, v in cmd_entries:
+        bare = n[6:] if n.startswith('build.') else n
+        form = forms.get(n, sc.get('cmd_form', 'D'))
+        if form != 'D' and bare in R.BUILTINS and not (isinstance(v, bool) and not v):
+            arg = '--warnlevel' if n == 'warning_level' else '--' + n.replace('_', '-')
+            if isinstance(v, bool):
+                groups.append((n, 'long-flag', [arg]))
+            elif form == 'long-eq':
+                groups.append((n, form, [f'{arg}={emit_cmd(v, bare)}']))
+            else:
+                groups.append((n, 'long-space', [arg, emit_cmd(v, bare)]))
+        else:
+            groups.append((n, 'D', [f'-D{n}={emit_cmd(v, bare)}']))
+    for n, v in srcs.get(S8, []):
+        groups.append(('sub:' + n, 'D', [f'-Dsub:{n}={emit_cmd(v, n)}']))
+    order = sc.get('cmd_order')
+    if order == 'reverse':
+        groups.reverse()
+    elif isinstance(order, dict) and 'shuffle' in order:
+        import random
+        random.Random(int(order['shuffle'])).shuffle(groups)
+    elif isinstance(order, dict) and 'perm' in order:
+        pos = {n: i for i, n in enumerate(order['perm'])}
+        groups.sort(key=lambda g: pos.get(g[0], len(pos)))
+    return groups
+
+
+def cmd_option_args(sc: dict) -> T.List[str]:
+    return [tok for _n, _f, toks in cmd_option_groups(sc) for tok in toks]
+
+
+def cli_cell(sc: dict) -> T.Optional[str]:
+    """Coverage cell of the one documented interaction BETWEEN arguments of a command line (buildtype sets
+    debug/optimization "unless they are given explicitly"): entry point : spelling of buildtype : whether an
+    explicit debug/optimization is written before it."""
+    groups = cmd_option_groups(sc)
+    names = [g[0] for g in groups]
+    if 'buildtype' not in names or not ({'debug', 'optimization'} & set(names)):
+        return None
+    i = names.index('buildtype')
+    before = bool({'debug', 'optimization'} & set(names[:i]))
+    form = 'D' if groups[i][1] == 'D' else 'long'
+    return f"{sc.get('entry', 'setup')}:buildtype-{form}:{'after-explicit' if before else 'first'}"
 
 
 # =============================================================================================
@@ -419,12 +473,54 @@ def run_scenario(sc: dict, root: str) -> dict:
         for n in sc['probe_sub']:
             probes.append((n, 'sub'))
         trace = set(names) | {'buildtype', 'debug', 'optimization', 'prefix'}
+        entry = sc.get('entry', 'setup')
+        after_configure: T.Optional[dict] = None
+        if entry != 'setup' and not hist:
+            # the command-line source reaches the build directory through another command that accepts
+            # option arguments: `meson configure <args>` or `meson setup --reconfigure <args>`, after a
+            # first setup that saw every other source
+            def stopped(phase: str, rr: T.Any, av: T.List[str]) -> dict:
+                return {'id': sc['id'], 'rc': rr.rc, 'timed_out': rr.timed_out, 'traceback': rr.traceback, 'wall': rr.wall,
+                        'mismatch': [], 'counts': {}, 'argv': av, 'entry_stopped': phase,
+                        'configured': os.path.exists(os.path.join(bdir, 'meson-private', 'coredata.dat')),
+                        'err_tail': (rr.out[-600:] if rr.rc != 0 else '') + rr.err[-600:], **pre}
+            r1 = runner.meson(argv, cwd=src, env={'MESON_FORCE_BACKTRACE': ''}, timeout=120)
+            pre = {'phase1_rc': r1.rc, 'phase1_argv': argv[:-2]}
+            if r1.timed_out or r1.traceback or r1.rc != 0:
+                return stopped('first-setup', r1, argv[:-2])
+            if entry == 'configure':
+                argv2 = ['configure'] + cmd_option_args(sc) + [bdir]
+                r2 = runner.meson(argv2, cwd=src, env={'MESON_FORCE_BACKTRACE': ''},
+                                  monitors=[mon.make(bdir, probes, sorted(trace))], timeout=120)
+                pre['configure_rc'] = r2.rc
+                pre['configure_argv'] = argv2[:-1]
+                if r2.timed_out or r2.traceback or r2.rc != 0:
+                    return stopped('configure', r2, argv2[:-1])
+                for ev in r2.records:
+                    if ev.get('ev') == 'loaded' and ev.get('values'):
+                        after_configure = {('sub|' if sub == 'sub' else 'top|') + n: (ok, v) for n, sub, ok, v in ev['values']}
+                argv = ['setup', '--reconfigure', bdir, src]
+            else:
+                argv = ['setup', '--reconfigure'] + cmd_option_args(sc) + [bdir, src]
         r = runner.meson(argv, cwd=src, env={'MESON_FORCE_BACKTRACE': ''}, monitors=[mon.make(bdir, probes, sorted(trace))], timeout=120)
         res: dict = {'id': sc['id'], 'rc': r.rc, 'timed_out': r.timed_out, 'traceback': r.traceback,
                      'wall': r.wall, 'mismatch': [], 'counts': {}, 'argv': argv[:-2], **pre}
         cnt = res['counts']
         if hist:
             cnt['monitor:first_init_by_later_command:' + hist['mode']] = 1
+        if entry != 'setup' and not hist:
+            cnt['monitor:cmdline_entry:' + entry] = 1
+        # command-line shape coverage: which spelling each option got and whether the order was permuted
+        cgroups = cmd_option_groups(sc)
+        for _n, f_, _t in cgroups:
+            cnt['cmdline_spelling:' + f_] = cnt.get('cmdline_spelling:' + f_, 0) + 1
+        if len(cgroups) > 1 and (sc.get('cmd_order') or sc.get('cmd_bt_last')):
+            cnt['cmdline_order_permuted'] = 1
+        if len({f_ == 'D' for _n, f_, _t in cgroups}) > 1:
+            cnt['cmdline_spellings_mixed'] = 1
+        ca = cli_cell(sc)
+        if ca:
+            cnt['monitor:cmdline_cell:' + ca] = 1
         if r.timed_out:
             return res
         configured = os.path.exists(os.path.join(bdir, 'meson-private', 'coredata.dat'))
@@ -511,6 +607,14 @@ def run_scenario(sc: dict, root: str) -> dict:
                 chans.append(('inprocess', ip, False))
             else:
                 chans.append(('inprocess', ip[1], any(same_val(a, ip[1]) for a in allowed)))
+            if after_configure is not None:
+                # what `meson configure` itself persisted, before the next reconfigure looks at it
+                ac = after_configure.get(where + '|' + name)
+                cnt['monitor:inprocess_after_configure'] = cnt.get('monitor:inprocess_after_configure', 0) + 1
+                if ac is None or not ac[0]:
+                    chans.append(('after-configure', ac, False))
+                else:
+                    chans.append(('after-configure', ac[1], any(same_val(a, ac[1]) for a in allowed)))
             if documented:
                 cnt['cells_documented'] = cnt.get('cells_documented', 0) + 1
             else:
@@ -1031,6 +1135,114 @@ def gen_buildtype_sub(seed: int) -> T.List[dict]:
     return out
 
 
+ENTRIES = ('setup', 'configure', 'reconfigure')
+
+
+def gen_cli_buildtype(thorough: bool, seed: int, rng: T.Any) -> T.List[dict]:
+    """One command line that names buildtype AND an explicit debug and/or optimization, in every order of
+    the arguments x every spelling of buildtype (-Dbuildtype=X, --buildtype=X, --buildtype X) x the explicit
+    ones as -D or in their dedicated spelling x every command that accepts option arguments (meson setup,
+    meson configure, meson setup --reconfigure), on top of a varying state of the lower-priority sources.
+    The property: buildtype sets debug/optimization "unless they are given explicitly" -- a statement about
+    what the command line says, not about where on it; so the expectation is the one of the -D spelling with
+    buildtype first.  The command line's buildtype always differs from the one in force before it (the listed
+    finding about a repeated buildtype value is a different question)."""
+    out: T.List[dict] = []
+    srcs3 = (S1, S3, S4)
+    lowers: T.List[T.Dict[str, T.Dict[str, T.Any]]] = [
+        {}, {S1: {'buildtype': 'B1'}}, {S3: {'buildtype': 'B1'}}, {S1: {'debug': 'X', 'optimization': 'X'}},
+        {S1: {'buildtype': 'B1'}, S3: {'optimization': 'X'}}, {S3: {'buildtype': 'B1', 'debug': 'X'}},
+    ]
+    idx = 0
+    pi = -1
+    for extras in (('debug',), ('optimization',), ('debug', 'optimization')):
+        for perm in itertools.permutations(('buildtype',) + extras):
+            pi += 1
+            for bt_form in CMD_FORMS:
+                for ex_form in ('D', 'long'):
+                    idx += 1
+                    for entry in ENTRIES:
+                        # quick: the later commands get a third each, rotating so that every perm meets every spelling
+                        if not thorough and entry != 'setup' and \
+                                (pi + CMD_FORMS.index(bt_form) + int(ex_form == 'long') + seed) % 3 != ENTRIES.index(entry) - 1:
+                            continue
+                        low = json.loads(json.dumps(lowers[rng.randrange(len(lowers))]))
+                        bts = BT_VALUES[:]
+                        rng.shuffle(bts)
+                        b1 = bts[0]
+                        in_force = b1 if any('buildtype' in g for g in low.values()) else 'debug'
+                        bt = [b for b in bts[1:] if b != in_force][0]
+                        imp_dbg, imp_opt = R.BUILDTYPE_TABLE[bt]
+                        taken = {imp_opt, R.BUILDTYPE_TABLE[b1][1], '0'}
+                        free_opt = [o for o in OPT_VALUES if o not in taken]
+                        rng.shuffle(free_opt)
+                        for g in low.values():
+                            if 'buildtype' in g:
+                                g['buildtype'] = b1
+                            if 'debug' in g:
+                                # two values only: the lower source says the opposite of what is expected
+                                g['debug'] = imp_dbg if 'debug' in extras else not imp_dbg
+                            if 'optimization' in g:
+                                g['optimization'] = free_opt[1]
+                        cmd: T.Dict[str, T.Any] = {'buildtype': bt}
+                        if 'debug' in extras:
+                            cmd['debug'] = not imp_dbg
+                        if 'optimization' in extras:
+                            cmd['optimization'] = free_opt[0]
+                        present = dict(low)
+                        present[S4] = cmd
+                        forms = {'buildtype': bt_form}
+                        for e in extras:
+                            forms[e] = 'D' if ex_form == 'D' else CMD_FORMS[1 + (idx + seed) % 2]
+                        sc = new_sc(f'BTO:{"".join(p[0] for p in perm)}:{bt_form}:{ex_form}:{entry}', 'BTO', scope='cmdline-shape',
+                                    entry=entry, cmd_forms=forms, cmd_order={'perm': list(perm)})
+                        for s in srcs3:
+                            for n in ('buildtype', 'debug', 'optimization'):
+                                if n in present.get(s, {}):
+                                    add_src(sc, s, n, present[s][n])
+                        res = R.resolve_buildtype(srcs3, present)
+                        for n in ('buildtype', 'debug', 'optimization'):
+                            sc['kinds'][n] = 'boolean' if n == 'debug' else 'combo'
+                            sc['probe_top'].append(n)
+                            sc['probe_sub'].append(n)
+                            sc['expect']['top|' + n] = exp(res[n])
+                            sc['expect']['sub|' + n] = exp(res[n])
+                        out.append(sc)
+    return out
+
+
+def vary_command_line(scs: T.List[dict], seed: int, thorough: bool) -> None:
+    """Give existing valid scenarios the other shapes of the same command line (in place unless said otherwise):
+      * the order of the option arguments permuted (half of the scenarios with >= 2 of them),
+      * in the groups whose command-line options are builtins, each option independently in one of its
+        spellings instead of all in the same one,
+      * for top-level-only groups, additional copies with the command line delivered by `meson configure` /
+        `setup --reconfigure` instead of the first `meson setup` (precedence is about sources; the command line is the highest
+        whichever command carries it).  Not for subproject sources and not for prefix: what a LATER
+        global -Dopt does to a subproject value that a lower-numbered source set, and whether directory
+        defaults follow a prefix changed later, is lifecycle (C08), the documents do not say."""
+    import zlib
+    extra: T.List[dict] = []
+    for sc in scs:
+        if sc.get('history') or sc.get('expect_fail') or sc.get('may_fail') or sc['group'] in ('BTO', 'KF'):
+            continue
+        h = zlib.crc32(sc['id'].encode()) + seed
+        n_cmd = len(sc['src'].get(S4, [])) + len(sc['src'].get(S8, []))
+        if n_cmd >= 2 and 'cmd_order' not in sc and h % 2 == 0:
+            sc.pop('cmd_bt_last', None)
+            sc['cmd_order'] = {'shuffle': h}
+        if sc['group'] in ('BT', 'BTS', 'DIR', 'BSL', 'BGL') and sc['src'].get(S4) and (sc['group'] in ('BSL', 'BGL') or (h >> 1) % 3):
+            sc['cmd_forms'] = {n: CMD_FORMS[(h >> (5 + 2 * i)) % 3] for i, (n, _v) in enumerate(sc['src'][S4])}
+        if sc['group'] in ('T16', 'BG', 'BGL') and sc['src'].get(S4) and not sc['src'].get(S8) and (thorough or (h >> 2) % 2 == 0):
+            # an additional scenario (the first `meson setup` keeps its own)
+            for entry in (ENTRIES[1:] if thorough else (ENTRIES[1 + (h >> 4) % 2],)):
+                s2 = json.loads(json.dumps(sc))
+                s2['entry'] = entry
+                s2['id'] += ':' + entry
+                extra.append(s2)
+    scs.extend(extra)
+
+
 # ---- invalid values ---------------------------------------------------------------------------
 
 def invalid_values(name: str) -> T.List[T.Tuple[str, T.Any, T.Sequence[str]]]:
@@ -1325,8 +1537,13 @@ def classify(sc: dict, mm: dict) -> str:
         return f'prefix-spelling:{where}:{name}:default-does-not-follow-reported-prefix'
     if not e['documented']:
         return f'inconsistent:{scope}:{where}:{name}'
-    if sc['group'] in ('BT', 'BTS', 'KF') and name in ('debug', 'optimization', 'buildtype'):
+    if sc['group'] in ('BT', 'BTS', 'KF', 'BTO') and name in ('debug', 'optimization', 'buildtype'):
         w = str(e['winner'])
+        cell = cli_cell(sc)
+        if cell and name != 'buildtype' and w == S4 and got_src != S4:
+            # an explicit command-line debug/optimization lost although the same command line names it:
+            # the key says how buildtype was spelled and whether the explicit argument stood before it
+            return f'explicit-{name}-on-command-line-lost:{cell.split(":", 1)[1]}:{where}'
         if w.endswith(':buildtype') and name != 'buildtype':
             # the winning buildtype repeats the value buildtype already had from the lower-priority
             # sources (or its built-in default): the code only expands a *changed* buildtype
@@ -1386,7 +1603,8 @@ def single_option(sc: dict, name: str) -> dict:
 
 
 def slim(res: dict) -> dict:
-    return {k: res.get(k) for k in ('id', 'rc', 'traceback', 'configured', 'mismatch', 'invariant_bad', 'err_tail', 'argv', 'trace', 'observed', 'phase1_rc', 'phase1_argv', 'phase1_stopped')}
+    return {k: res.get(k) for k in ('id', 'rc', 'traceback', 'configured', 'mismatch', 'invariant_bad', 'err_tail', 'argv', 'trace', 'observed', 'phase1_rc', 'phase1_argv', 'phase1_stopped',
+                                    'entry_stopped', 'configure_rc', 'configure_argv')}
 
 
 def source_view(sc: dict) -> dict:
@@ -1443,6 +1661,14 @@ def judge(chk: common.Check, sc: dict, res: dict, orders: T.Dict[str, int]) -> N
             if res.get('configured'):
                 chk.violation(f'failed-setup-left-configured:{g}:phase1', w)
         return
+    if res.get('entry_stopped'):
+        # the first setup (without the command-line source) or `meson configure <args>` itself did not succeed
+        w = {'scenario': source_view(sc), 'full_scenario': sc, 'result': slim(res), 'phase': res['entry_stopped']}
+        if res.get('traceback') or res['rc'] not in (0, 1):
+            chk.violation(f'internal-error:{g}:{res["entry_stopped"]}', w)
+        else:
+            chk.violation(f'valid-configuration-rejected:{g}:{res["entry_stopped"]}', w)
+        return
     if res.get('traceback') or res['rc'] not in (0, 1):
         mech = f'internal-error:{g}:{sc.get("inv_class", "valid")}'
         if sc.get('inv_class') == 'wrong-type-elem' and sc.get('inv_source') in (S3, S7) and \
@@ -1490,6 +1716,8 @@ def judge(chk: common.Check, sc: dict, res: dict, orders: T.Dict[str, int]) -> N
                                                     'second_run_observed': res.get('rerun_observed')})
     for mm in res.get('mismatch', []):
         mech = classify(sc, mm)
+        if sc.get('entry', 'setup') != 'setup' and not hist:
+            mech = f'command-line-given-to-{sc["entry"]}:' + mech
         if hist:
             mech = f'first-init-by-{hist["mode"]}:' + mech
             if hist['mode'] == 'retry' and hist['poison_source'] == S5 and mm['expected']['winner'] == S5 \
@@ -1537,6 +1765,7 @@ def scenarios(chk: common.Check) -> T.List[dict]:
     out += gen_sub_first_language(thorough, seed, chk.rng)
     out += gen_buildtype(seed, thorough, chk.rng)
     out += gen_buildtype_sub(seed)
+    out += gen_cli_buildtype(thorough, seed, chk.rng)
     out += gen_invalid(thorough, seed)
     out += gen_unknown()
     out += gen_overridden_invalid(seed)
@@ -1551,8 +1780,9 @@ def scenarios(chk: common.Check) -> T.List[dict]:
         out += gen_subsets('BSx', BUILTIN_PERSUB, 'builtin_persub', all256, seed, cross=True)
         out += gen_subsets('PNx', pk, 'project', all256, seed, cross=True,
                            native_decoy="[project options]\nps = 'vf_decoy'\npi = 999\n[sub:project options]\nps = 'vf_decoy'\npi = 999\n")
+    vary_command_line(out, seed, thorough)
     # a time cut (quick: 150 s) drops the tail: cheap, deciding groups first, the C-compiler group last
-    prio = ['KF', 'T16', 'PB', 'PN', 'BS', 'LPN', 'LBS', 'RPN', 'RBS', 'XPM', 'NPM', 'BSL', 'BGL', 'YT', 'DIRS', 'PY', 'PS', 'INV', 'UNK', 'DIR', 'BT', 'BTS',
+    prio = ['KF', 'T16', 'BTO', 'PB', 'PN', 'BS', 'LPN', 'LBS', 'RPN', 'RBS', 'XPM', 'NPM', 'BSL', 'BGL', 'YT', 'DIRS', 'PY', 'PS', 'INV', 'UNK', 'DIR', 'BT', 'BTS',
             'BG', 'BGS', 'BND', 'MF', 'OVI']
     out.sort(key=lambda sc: prio.index(sc['group']) if sc['group'] in prio else len(prio) + (sc['group'] in ('CC', 'CX', 'XSF', 'NSF')))
     return out
@@ -1611,7 +1841,11 @@ def main() -> int:
                  'monitor:invariant:loaded', 'monitor:set_option_calls', 'monitor:set_user_option_calls',
                  'monitor:invalid_value_rejection', 'monitor:value_comparison',
                  'monitor:first_init_by_later_command:late-edit', 'monitor:first_init_by_later_command:late-gate',
-                 'monitor:first_init_by_later_command:retry'):
+                 'monitor:first_init_by_later_command:retry',
+                 'monitor:cmdline_entry:configure', 'monitor:cmdline_entry:reconfigure', 'monitor:inprocess_after_configure',
+                 'cmdline_order_permuted', 'cmdline_spellings_mixed', 'cmdline_spelling:long-eq', 'cmdline_spelling:long-space',
+                 'cmdline_spelling:long-flag') + \
+            tuple(f'monitor:cmdline_cell:{e_}:buildtype-{f_}:{p_}' for e_ in ENTRIES for f_ in ('D', 'long') for p_ in ('first', 'after-explicit')):
         if not only:
             chk.require(name, 1)
     groups = sorted({s['group'] for s in scs})
@@ -1627,11 +1861,16 @@ def main() -> int:
             'an invalid value at a source that a higher-priority source overrides need not be diagnosed, but must never become effective',
             'two- and three-valued kinds cannot give each source its own value: the reference winner(s) get values no other source has',
             'native builds in quick; cross file (same gcc) only in thorough',
+            'the spelling of a command-line option (-Dname=value / --name=value / --name value), the order of the arguments and the '
+            'command that carries them (setup / configure / setup --reconfigure) are not sources: each shape must resolve like -D in generated order; '
+            'later commands carry only top-level options other than prefix, and a buildtype different from the one in force',
         ],
         exhaustive=not chk.counters.get('skipped_time_budget') and not only,
         extra={'groups': groups, 'source_application_orders': dict(sorted(orders.items(), key=lambda kv: -kv[1])[:12]),
                'exhaustive_bound': '2^3 x {default declared, omitted} top-level subsets; 2^8 subproject subsets for project options '
-                                   '(6 kinds) and per-subproject builtins (8 options); sampled subsets for compiler options in quick'})
+                                   '(6 kinds) and per-subproject builtins (8 options); sampled subsets for compiler options in quick; '
+                                   'command line naming buildtype + explicit debug/optimization: all argument orders x 3 spellings of buildtype x '
+                                   '2 of the explicit ones, for meson setup (all) and configure / setup --reconfigure (a rotating third each in quick)'})
 
 
 if __name__ == '__main__':
